@@ -54,7 +54,19 @@ def run_variant(pid, module, variant, repo="/repo"):
     """Returns (status, rc, output): status in fired / silent / skipped / error."""
     tmp = make_copy(repo)
     try:
-        edits = variant.get("edits") or [(variant["file"], variant["old"], variant["new"])]
+        if variant.get("revert"):
+            import subprocess
+            pt = subprocess.run(["git", "-C", repo, "format-patch", "-1", "--stdout", variant["revert"]],
+                                capture_output=True)
+            if pt.returncode != 0:
+                return "skipped", None, "commit not found"
+            ap = subprocess.run(["git", "apply", "-R", "--whitespace=nowarn", "-"], input=pt.stdout, cwd=tmp,
+                                capture_output=True)
+            if ap.returncode != 0:
+                return "skipped", None, "reverse patch does not apply: %s" % ap.stderr.decode()[:200]
+            edits = []
+        else:
+            edits = variant.get("edits") or [(variant["file"], variant["old"], variant["new"])]
         for e in edits:
             if not apply_edit(tmp, e[0], e[1], e[2]):
                 return "skipped", None, "anchor text absent: %r" % (e[1][:60],)
